@@ -3,6 +3,8 @@ import InfOCFModel.Diag
 import InfOCFModel.Cnf
 import InfOCFModel.Rank
 import InfOCFModel.Lexer
+import InfOCFModel.CRepModel
+import InfOCFModel.RemoveSup
 /-!
 Line-protocol driver: one request per line on stdin, one response per line on stdout.
 
@@ -253,6 +255,70 @@ def handle (line : String) : Except String (String × Bool) := do
       match parseQueriesText (unhex h) with
       | some b => pure (showParsedBase b, true)
       | none => pure ("reject", true)
+    | "crep" =>
+      let n ← pnat
+      let D ← listOf pcond
+      let Q ← listOf pcond
+      let mut ηr : List Nat := []
+      for _ in [0:D.length] do ηr := (← pnat) :: ηr
+      let η := ηr.reverse
+      let Ω := allWorlds n
+      let κ := kappaC D (impOf D η)
+      let ranks := " ".intercalate (Ω.map fun w => toString (κ w))
+      pure (bit (isCRepB Ω D η) ++ "|" ++ String.join (Q.map fun q => bit (acceptCode Ω κ q)) ++ "|" ++
+            bit (paretoMinB Ω D η) ++ "|" ++ ranks, true)
+    | "csearch" =>
+      let n ← pnat
+      let B ← pnat
+      let D ← listOf pcond
+      let Q ← listOf pcond
+      let Ω := allWorlds n
+      let outs := Q.map fun q =>
+        match counterModelInCube Ω D B q with
+        | some η => "1:" ++ ",".intercalate (η.map toString)
+        | none => "0"
+      let anyRep := (boxVectors (D.map fun _ => B)).any (isCRepB Ω D)
+      pure (bit anyRep ++ "|" ++ " ".intercalate outs, true)
+    | "crev" =>
+      let n ← pnat
+      let Ω := allWorlds n
+      let mut rs : List Nat := []
+      for _ in [0:Ω.length] do rs := (← pnat) :: rs
+      let R ← listOf pcond
+      let mut gpr : List Nat := []
+      for _ in [0:R.length] do gpr := (← pnat) :: gpr
+      let mut gmr : List Nat := []
+      for _ in [0:R.length] do gmr := (← pnat) :: gmr
+      let κ := rankFn Ω rs.reverse
+      let gp := gpr.reverse
+      let gm := gmr.reverse
+      let κ' := kappaRev κ R gp gm
+      pure (bit (revOkB Ω κ R gp gm) ++ "|" ++ String.join (R.map fun c => bit (acceptCode Ω κ' c)) ++ "|" ++
+            bit (revParetoMinB Ω κ R gp gm) ++ "|" ++ " ".intercalate (Ω.map fun w => toString (κ' w)), true)
+    | "crevsearch" =>
+      -- is there any parameter vector in the cube [0..B] (γ⁺ and γ⁻, or γ⁻ only when gpz = 1)?
+      let n ← pnat
+      let B ← pnat
+      let gpz ← pnat
+      let Ω := allWorlds n
+      let mut rs : List Nat := []
+      for _ in [0:Ω.length] do rs := (← pnat) :: rs
+      let R ← listOf pcond
+      let κ := rankFn Ω rs.reverse
+      let zero := R.map fun _ => 0
+      let cube := boxVectors (R.map fun _ => B)
+      let found := if gpz == 1 then (cube.find? fun gm => revOkB Ω κ R zero gm).map fun gm => (zero, gm)
+                   else (cube.flatMap fun gp => cube.map fun gm => (gp, gm)).find? fun p => revOkB Ω κ R p.1 p.2
+      match found with
+      | some (gp, gm) => pure ("1:" ++ ",".intercalate (gp.map toString) ++ ":" ++ ",".intercalate (gm.map toString), true)
+      | none => pure ("0", true)
+    | "rmsup" =>
+      let m ← pnat
+      let mut X : List (List Cond) := []
+      for _ in [0:m] do
+        let ks ← listOf pnat
+        X := (ks.map fun k => (⟨.top, .top, k⟩ : Cond)) :: X
+      pure (showPart (removeSupersets X.reverse), true)
     | "ans" =>
       let n ← pnat
       let wk ← pnat
